@@ -12,7 +12,7 @@ RULE = ("decreasing / two-thirds / three-quarters covers on generated classes (r
         "docstring worst-case families), n <= 150, list, array, dict and names+valueof presentations; non-trivial = at least one bin covered and "
         "at least one item left over; distinct on (algorithm, binsize, sorted values, presentation kind)")
 ASSUMPTIONS = ["positive integer values"]
-FLOORS = {"quick": {"distinct_nontrivial": 3000}, "thorough": {"distinct_nontrivial": 30000}}
+FLOORS = {"quick": {"distinct_nontrivial": 3000}, "thorough": {"distinct_nontrivial": 15000}}
 
 
 def plan(tier, seed):
